@@ -93,6 +93,7 @@ type Profile struct {
 	MaxFiles  int
 	Comments  bool // attach leading comments (descriptions)
 	CrossPkg  bool // bias towards several files, a sub-package first, and references across files
+	Collide   bool // add descriptors whose split names (path joined by "_") coincide
 }
 
 // Case is one generated descriptor set.
@@ -182,6 +183,10 @@ func Generate(r *vh.Rand, p Profile, deps []*descriptorpb.FileDescriptorProto) *
 	}
 	if nFiles > 1 {
 		g.tag("multi-file")
+	}
+	if p.Collide {
+		addCollision(c.Gen[0], r.Chance(50))
+		g.tag("split-name-collision-crafted")
 	}
 	if p.Supported {
 		repairSupported(c.Gen)
@@ -1670,4 +1675,41 @@ func repairSupported(files []*descriptorpb.FileDescriptorProto) {
 			}
 		}
 	}
+}
+
+
+// addCollision appends `message Col { enum Kind; message Inner }`, `message Col_Kind` (with a field
+// of type Col.Kind, optionally carrying an enum rule) and `message Col_Inner` (with a field of type
+// Col.Inner): an enum and a message, and two messages, whose schema names coincide.
+func addCollision(fd *descriptorpb.FileDescriptorProto, withRule bool) {
+	pkg := "." + fd.GetPackage()
+	opt := descriptorpb.FieldDescriptorProto_LABEL_OPTIONAL.Enum()
+	col := &descriptorpb.DescriptorProto{
+		Name: proto.String("Col"),
+		EnumType: []*descriptorpb.EnumDescriptorProto{{
+			Name: proto.String("Kind"),
+			Value: []*descriptorpb.EnumValueDescriptorProto{
+				{Name: proto.String("KIND_UNSPECIFIED"), Number: proto.Int32(0)},
+				{Name: proto.String("KIND_A"), Number: proto.Int32(1)},
+			},
+		}},
+		NestedType: []*descriptorpb.DescriptorProto{{
+			Name: proto.String("Inner"),
+			Field: []*descriptorpb.FieldDescriptorProto{
+				{Name: proto.String("n"), Number: proto.Int32(1), Label: opt, Type: descriptorpb.FieldDescriptorProto_TYPE_INT32.Enum()},
+			},
+		}},
+	}
+	k := &descriptorpb.FieldDescriptorProto{Name: proto.String("k"), Number: proto.Int32(1), Label: opt,
+		Type: descriptorpb.FieldDescriptorProto_TYPE_ENUM.Enum(), TypeName: proto.String(pkg + ".Col.Kind")}
+	if withRule {
+		k.Options = &descriptorpb.FieldOptions{}
+		proto.SetExtension(k.Options, validate.E_Field, &validate.FieldConstraints{Type: &validate.FieldConstraints_Enum{Enum: &validate.EnumRules{In: []int32{1}}}})
+	}
+	colKind := &descriptorpb.DescriptorProto{Name: proto.String("Col_Kind"), Field: []*descriptorpb.FieldDescriptorProto{k}}
+	colInner := &descriptorpb.DescriptorProto{Name: proto.String("Col_Inner"), Field: []*descriptorpb.FieldDescriptorProto{
+		{Name: proto.String("i"), Number: proto.Int32(1), Label: opt, Type: descriptorpb.FieldDescriptorProto_TYPE_MESSAGE.Enum(), TypeName: proto.String(pkg + ".Col.Inner")},
+		{Name: proto.String("s"), Number: proto.Int32(2), Label: opt, Type: descriptorpb.FieldDescriptorProto_TYPE_STRING.Enum()},
+	}}
+	fd.MessageType = append(fd.MessageType, col, colKind, colInner)
 }
